@@ -150,13 +150,6 @@ impl<M: MovingAverageConstructor> AverageDirectionalIndexInstance<M> {
 	fn dir_mov(&mut self, candle: HLC) -> (ValueType, ValueType) {
 		let prev_candle = self.window.push(candle);
 		let true_range = self.tr_ma.next(&candle.tr_close(self.prev_close));
-
-		// an average of non-negative ranges; a rounding residue (or an overshooting kind of average) may
-		// leave it slightly negative when the true value is zero
-		if true_range <= 0.0 {
-			return (0.0, 0.0);
-		}
-
 		self.prev_close = candle.close();
 
 		let (du, dd) = (
@@ -171,6 +164,13 @@ impl<M: MovingAverageConstructor> AverageDirectionalIndexInstance<M> {
 		// directional index (and through it the input of ADX) negative
 		let plus_di_value = self.plus_di.next(&plus_dm).max(0.); // +DI
 		let minus_di_value = self.minus_di.next(&minus_dm).max(0.); // -DI
+
+		// an average of non-negative ranges; a rounding residue (or an overshooting kind of average) may
+		// leave it slightly negative when the true value is zero. The averages above are fed anyway: they
+		// must stay in step with the average of the true range
+		if true_range <= 0.0 {
+			return (0.0, 0.0);
+		}
 
 		(plus_di_value / true_range, minus_di_value / true_range)
 	}
